@@ -57,6 +57,7 @@ fn dispatch(toks: &[&str]) -> String {
         "asmline" => asmrun::asmline(toks),
         "cells" => cross::cells(toks),
         "cross" => cross::cross(toks),
+        "imgcmp" => cross::imgcmp(toks),
         "fsh" => fsrun::run(toks),
         "fsckfile" => fsckrun::fsck_file(toks),
         "pdtree" => fsckrun::pdtree(toks),
